@@ -4,6 +4,17 @@
 //! Haystacks: ALL strings of at most 4 (quick) / 6 (thorough) units over
 //! `{a, b, ' ', '\n', "\r\n", é, €, 🦀}` — as inline and as borrowed sources — plus random longer
 //! ones (heap, heap offset-slice of a bigger buffer, borrowed, inline), on the backends Arc, Rc, Unique.
+//! CLASS alphabet (second exhaustive sweep, for the methods whose std semantics depend on Unicode
+//! properties — `trim*`, `split_whitespace` vs `split_ascii_whitespace`, `lines`, char-predicate patterns
+//! `char::is_whitespace` / `is_alphanumeric` / `is_numeric` / ASCII whitespace / `is_control` in
+//! `split`/`matches`/`rmatches`/`match_indices`/`trim_*matches`/`strip_*`): all strings of at most 3
+//! (thorough: 4) units over `CLASS_UNITS` = TAB, LF, VT, FF, CR, U+001C..U+001F (controls that are NOT
+//! White_Space), SPACE, NEL U+0085, NBSP U+00A0, U+1680, U+2003, LS U+2028, PS U+2029, U+202F, U+205F,
+//! U+3000, U+FEFF (NOT whitespace), `a`, `é`, `1`; every such haystack runs the class methods
+//! exhaustively (inline and borrowed; three backends up to 2 units, rotating above in quick), every 53rd
+//! also the full pattern grid; random
+//! longer ones give heap sources. The alphabet and the per-method hit counts are in `distribution`
+//! (`classes unit …`, `classes method …`).
 //! Patterns: `char`, `&str` (incl. empty and overlapping), `&&str`, `&String`, `&[char]`, `&[char; N]`,
 //! closures (incl. a stateful `FnMut`), `char::is_whitespace`; `n ∈ 0..4` for `splitn`/`rsplitn`;
 //! iteration forward, backward and mixed front/back wherever std's iterator is double-ended.
@@ -34,8 +45,10 @@
 //!      freed (quarantined) or unknown block is reported ("piece views freed memory") instead of read;
 //!  (c) `from_utf8(piece.as_bytes())` is `Ok`, and the representation is normalised.
 //! Allocating functions (`to_lowercase`, `to_uppercase`, `to_ascii_*case`, `repeat`, `from_utf16`,
-//! `from_utf16_lossy`) are compared with std on a case-sensitive alphabet / on all short `u16` sequences
-//! with lone surrogates.
+//! `from_utf16_lossy`, and the in-place `make_ascii_*case`) are compared with std on a case-sensitive
+//! alphabet (ß → SS, İ, final sigma at a word end, ǅ, ﬁ) and on the short class haystacks / on all short
+//! `u16` sequences with lone surrogates, after a NAMED corpus (`UTF16_CORPUS`: unpaired high surrogate
+//! followed by a non-surrogate unit, by another high surrogate, …).
 //!
 //! Op lines (`input` of a disagreement, accepted back by `--replay`):
 //!   `hay <hex> <inline|borrowed|heap|heapslice> <Arc|Rc|Unique>`   then   `call <label>`
@@ -59,7 +72,7 @@
 
 use std::collections::BTreeMap;
 use std::panic::{catch_unwind, AssertUnwindSafe};
-use std::sync::atomic::{AtomicBool, Ordering};
+use std::sync::atomic::{AtomicBool, AtomicU8, Ordering};
 use std::sync::OnceLock;
 
 use hipstr::string::HipStr;
@@ -686,6 +699,16 @@ impl Hint {
 }
 static SIZE_HINT_FORWARDED: AtomicBool = AtomicBool::new(false);
 
+/// What `tracked` runs on a source: the full method x pattern grid, the class methods, or both
+/// (filtered re-runs always run both: the label selects).
+static PLAN: AtomicU8 = AtomicU8::new(PLAN_FULL);
+const PLAN_FULL: u8 = 0;
+/// class methods, predicate patterns through the reduced method set
+const PLAN_CLASSES: u8 = 1;
+/// class methods, predicate patterns through every pattern-taking method
+const PLAN_CLASSES_ALL: u8 = 2;
+const PLAN_BOTH: u8 = 3;
+
 fn lock_fwd<'h, B, HI, SI>(cx: &mut Cx<'h, '_, B>, mut hi: HI, mut si: SI) -> Result<usize, ()>
 where
     B: Backend,
@@ -893,6 +916,7 @@ static E_CRAB: [char; 2] = ['é', '🦀'];
 static ONLY_A: [char; 1] = ['a'];
 static ONLY_SP: [char; 1] = [' '];
 static NONE: [char; 0] = [];
+static NBSP_IDSP: [char; 2] = ['\u{a0}', '\u{3000}'];
 
 
 // ----- call-site macros; `$c` = `[cx src h]` (the three locals of the enclosing fn)
@@ -1078,6 +1102,51 @@ fn run_fn<'h, B: Backend, F: FnMut(char) -> bool + Clone>(
     one!([cx src h], "trim_matches", pat, trim_matches(p.clone()));
 }
 
+/// The pattern-taking methods whose result depends on WHICH characters the predicate accepts.
+#[inline(never)]
+fn run_fn_lite<'h, B: Backend, F: FnMut(char) -> bool + Clone>(
+    src: &HipStr<'h, B>,
+    h: &'h str,
+    cx: &mut Cx<'h, '_, B>,
+    pat: &'static str,
+    p: F,
+) {
+    it_de!([cx src h], "split", pat, split(p.clone()));
+    it_de!([cx src h], "matches", pat, matches(p.clone()));
+    it_de!([cx src h], "rmatches", pat, rmatches(p.clone()));
+    it_de!([cx src h], "match_indices", pat, match_indices(p.clone()));
+    one!([cx src h], "trim_matches", pat, trim_matches(p.clone()));
+    one!([cx src h], "trim_start_matches", pat, trim_start_matches(p.clone()));
+    one!([cx src h], "trim_end_matches", pat, trim_end_matches(p.clone()));
+    opt!([cx src h], "strip_prefix", pat, strip_prefix(p.clone()));
+    opt!([cx src h], "strip_suffix", pat, strip_suffix(p.clone()));
+}
+
+/// The methods whose std semantics depend on Unicode character properties: `trim*`,
+/// `split_whitespace`, `split_ascii_whitespace`, `lines` (always all of them), and the std character
+/// predicates as patterns (`all` = through every pattern-taking method, else the reduced set).
+fn run_classes<'h, B: Backend>(src: &HipStr<'h, B>, h: &'h str, cx: &mut Cx<'h, '_, B>, all: bool) {
+    run_nopat(src, h, cx);
+    if all {
+        run_fn(src, h, cx, "fn:is_whitespace", char::is_whitespace);
+        run_fn(src, h, cx, "fn:is_alphanumeric", char::is_alphanumeric);
+        run_fn(src, h, cx, "fn:is_numeric", char::is_numeric);
+        run_fn(src, h, cx, "fn:is_ascii_whitespace", |c: char| c.is_ascii_whitespace());
+        run_fn(src, h, cx, "fn:is_control", char::is_control);
+        run_char(src, h, cx, "char:vt", '\u{b}');
+        run_char(src, h, cx, "char:nbsp", '\u{a0}');
+        run_char(src, h, cx, "char:line-separator", '\u{2028}');
+        run_str(src, h, cx, "str:nel", "\u{85}");
+        run_slice(src, h, cx, "slice:nbsp-ideographic-space", &NBSP_IDSP[..]);
+    } else {
+        run_fn_lite(src, h, cx, "fn:is_whitespace", char::is_whitespace);
+        run_fn_lite(src, h, cx, "fn:is_alphanumeric", char::is_alphanumeric);
+        run_fn_lite(src, h, cx, "fn:is_numeric", char::is_numeric);
+        run_fn_lite(src, h, cx, "fn:is_ascii_whitespace", |c: char| c.is_ascii_whitespace());
+        run_fn_lite(src, h, cx, "fn:is_control", char::is_control);
+    }
+}
+
 /// Runs every inherited piece-returning method with every pattern on one source.
 fn run_all<'h, B: Backend>(src: &HipStr<'h, B>, h: &'h str, cx: &mut Cx<'h, '_, B>) {
     run_nopat(src, h, cx);
@@ -1205,6 +1274,12 @@ struct Stats {
     internal: Vec<String>,
     /// calls per (method, consumption mode); rendered as `method <m>` and `mode <m> <mode>`
     modes: BTreeMap<(&'static str, Dir), u64>,
+    /// calls per method made on haystacks of the class alphabet
+    class_methods: BTreeMap<&'static str, u64>,
+    /// the haystack at hand is over the class alphabet (whatever the plan)
+    class_sweep: bool,
+    /// class unit index -> occurrences in the class haystacks
+    class_unit_hits: BTreeMap<usize, u64>,
     /// why the run ended before the plan was through
     stop: Option<&'static str>,
     out_path: Option<String>,
@@ -1271,7 +1346,15 @@ fn tracked<B: Backend>(h: &str, kind: Kind, bk: &'static str, filter: Option<&st
     if src_class != expected_class {
         cx.fail("monitor:source", format!("source representation {expected_class}"), src_class.to_string());
     }
-    run_all(&src, h, &mut cx);
+    match if filter.is_some() { PLAN_BOTH } else { PLAN.load(Ordering::Relaxed) } {
+        PLAN_FULL => run_all(&src, h, &mut cx),
+        PLAN_CLASSES => run_classes(&src, h, &mut cx, false),
+        PLAN_CLASSES_ALL => run_classes(&src, h, &mut cx, true),
+        _ => {
+            run_all(&src, h, &mut cx);
+            run_classes(&src, h, &mut cx, true);
+        }
+    }
     cx.stage("@calls");
     cx.alloc_violations(true);
     // (b) mutate the source in place, then drop it
@@ -1412,8 +1495,12 @@ fn account(st: &mut Stats, h: &str, kind: Kind, bk: Bk, sample: Option<u64>) {
     if ss.table_full > 0 {
         st.hit("allocator block table full (blocks not tracked)", ss.table_full);
     }
+    let classes = PLAN.load(Ordering::Relaxed) != PLAN_FULL || st.class_sweep;
     for (k, n) in ss.per_method {
         *st.modes.entry(k).or_insert(0) += n;
+        if classes {
+            *st.class_methods.entry(k.0).or_insert(0) += n;
+        }
     }
     for s in ss.samples {
         if st.samples.len() < 12 {
@@ -1475,7 +1562,14 @@ fn render(st: &Stats, complete: bool, final_: bool) -> (serde_json::Value, usize
             *dist.entry(format!("mode {m} {}", d.name())).or_insert(0) += c;
         }
     }
+    for (i, c) in &st.class_unit_hits {
+        *dist.entry(format!("classes unit {}", CLASS_UNITS[*i].0)).or_insert(0) += c;
+    }
+    for (m, c) in &st.class_methods {
+        *dist.entry(format!("classes method {m}")).or_insert(0) += c;
+    }
     let v = serde_json::json!({
+        "class_alphabet": CLASS_UNITS.iter().map(|(n, _)| *n).collect::<Vec<_>>(),
         "complete": complete,
         "stopped_early": st.stop,
         "evaluations": st.evaluations,
@@ -1588,6 +1682,11 @@ fn owned_checks(st: &mut Stats, thorough: bool, rng: &mut Rng) {
             for n in [0usize, 1, 2, 3, 7] {
                 check::<B>(st, bk, "repeat", h, caught(|| src.repeat(n)), &h.repeat(n));
             }
+            // in place
+            let m = src.clone();
+            check::<B>(st, bk, "make_ascii_uppercase", h, caught(move || { let mut m = m; m.make_ascii_uppercase(); m }), &h.to_ascii_uppercase());
+            let m = src.clone();
+            check::<B>(st, bk, "make_ascii_lowercase", h, caught(move || { let mut m = m; m.make_ascii_lowercase(); m }), &h.to_ascii_lowercase());
             // the source is untouched by the copies
             if src.as_str() != h {
                 st.internal.push(format!("source changed by a to_*case/repeat call: {}", hex(h.as_bytes())));
@@ -1595,7 +1694,8 @@ fn owned_checks(st: &mut Stats, thorough: bool, rng: &mut Rng) {
         }
     }
     // case-sensitive alphabet: ASCII both cases, ß (→ SS), İ (→ i̇), Σ/σ (final sigma), ǅ (title case), ﬁ (→ FI), é
-    let alpha: [&str; 8] = ["a", "Z", "ß", "İ", "Σ", "ǅ", "ﬁ", "É"];
+    // " " makes word ends inside the string (final sigma: "aΣ a" → "aς a")
+    let alpha: [&str; 9] = ["a", "Z", "ß", "İ", "Σ", "ǅ", "ﬁ", "É", " "];
     let max = if thorough { 4 } else { 3 };
     let mut all: Vec<String> = vec![String::new()];
     let mut frontier = vec![String::new()];
@@ -1612,6 +1712,17 @@ fn owned_checks(st: &mut Stats, thorough: bool, rng: &mut Rng) {
     for _ in 0..(if thorough { 2000 } else { 200 }) {
         let n = 5 + rng.below(30);
         all.push((0..n).map(|_| *rng.pick(&alpha)).collect());
+    }
+    // named case-mapping inputs and the short class haystacks
+    for s in ["ΑΣ", "ΑΣ ", "ΑΣΑ", "Σ", " Σ", "aΣ.b", "ΌΣΟΣ ΟΔΌΣ", "ǅ", "ǆ", "Ǆ", "İstanbul", "ı", "STRASSE", "straße", "ŉ", "ǰ", "ΐ", "ﬃ"] {
+        all.push(s.to_string());
+    }
+    for (_, a) in CLASS_UNITS {
+        all.push(a.to_string());
+        for (_, b) in CLASS_UNITS {
+            all.push(format!("{a}{b}"));
+            all.push(format!("A{a}z{b}"));
+        }
     }
     for (i, h) in all.iter().enumerate() {
         match i % 3 {
@@ -1674,6 +1785,12 @@ fn owned_checks(st: &mut Stats, thorough: bool, rng: &mut Rng) {
             );
         }
     }
+    for (name, v) in UTF16_CORPUS {
+        utf16::<Arc>(st, Bk::Arc, v);
+        utf16::<Rc>(st, Bk::Rc, v);
+        utf16::<Unique>(st, Bk::Unique, v);
+        st.hit(&format!("utf16 corpus: {name} {:04x?}", v), 3);
+    }
     let units: [u16; 8] = [0x0061, 0x00E9, 0x20AC, 0xD83E, 0xDD80, 0xD800, 0xDC00, 0x0000];
     let max = if thorough { 5 } else { 4 };
     let mut all: Vec<Vec<u16>> = vec![vec![]];
@@ -1706,6 +1823,57 @@ fn owned_checks(st: &mut Stats, thorough: bool, rng: &mut Rng) {
 // ---------------------------------------------------------------------------------------------
 
 const UNITS: [&str; 8] = ["a", "b", " ", "\n", "\r\n", "é", "€", "🦀"];
+
+/// The class alphabet: (name with the properties that matter, the unit).
+/// White_Space (`char::is_whitespace`, what `trim*`/`split_whitespace` use): TAB LF VT FF CR SPACE NEL NBSP
+/// U+1680 U+2003 LS PS U+202F U+205F U+3000. ASCII whitespace (`split_ascii_whitespace`,
+/// `u8::is_ascii_whitespace`): TAB LF FF CR SPACE — NOT VT. Line breaks of `str::lines`: LF and CR LF only
+/// (a lone CR, NEL, LS, PS are not). U+001C..U+001F and U+FEFF are not whitespace at all.
+const CLASS_UNITS: [(&str, &str); 24] = [
+    ("U+0009 TAB (white_space, ascii_ws)", "\u{9}"),
+    ("U+000A LF (white_space, ascii_ws, line break)", "\n"),
+    ("U+000B VT (white_space, NOT ascii_ws)", "\u{b}"),
+    ("U+000C FF (white_space, ascii_ws)", "\u{c}"),
+    ("U+000D CR (white_space, ascii_ws, line break only before LF)", "\r"),
+    ("U+001C FS (control, NOT white_space)", "\u{1c}"),
+    ("U+001D GS (control, NOT white_space)", "\u{1d}"),
+    ("U+001E RS (control, NOT white_space)", "\u{1e}"),
+    ("U+001F US (control, NOT white_space)", "\u{1f}"),
+    ("U+0020 SPACE (white_space, ascii_ws)", " "),
+    ("U+0085 NEL (white_space, control, NOT a line break for lines)", "\u{85}"),
+    ("U+00A0 NBSP (white_space)", "\u{a0}"),
+    ("U+1680 OGHAM SPACE (white_space)", "\u{1680}"),
+    ("U+2003 EM SPACE (white_space)", "\u{2003}"),
+    ("U+2028 LS (white_space, NOT a line break for lines)", "\u{2028}"),
+    ("U+2029 PS (white_space, NOT a line break for lines)", "\u{2029}"),
+    ("U+202F NNBSP (white_space)", "\u{202f}"),
+    ("U+205F MMSP (white_space)", "\u{205f}"),
+    ("U+3000 IDEOGRAPHIC SPACE (white_space)", "\u{3000}"),
+    ("U+FEFF ZWNBSP/BOM (NOT white_space)", "\u{feff}"),
+    ("U+0061 a (alphanumeric)", "a"),
+    ("U+00E9 e-acute (alphanumeric)", "é"),
+    ("U+0031 1 (numeric)", "1"),
+    ("U+00B2 superscript two (numeric, NOT ascii digit)", "\u{b2}"),
+];
+
+/// Named `u16` inputs of `from_utf16` / `from_utf16_lossy` (run first, on the three backends).
+const UTF16_CORPUS: [(&str, &[u16]); 12] = [
+    ("unpaired high surrogate + non-surrogate unit", &[0xD800, 0x0061]),
+    ("unpaired high surrogate + another high surrogate", &[0xD800, 0xD800]),
+    ("unpaired high surrogate + high surrogate + low surrogate (the 2nd pairs)", &[0xD800, 0xD83E, 0xDD80]),
+    ("unpaired high surrogate + non-surrogate + low surrogate", &[0xD800, 0x0061, 0xDC00]),
+    ("unpaired high surrogate + BMP non-ASCII unit", &[0xD800, 0x20AC]),
+    ("unpaired high surrogate at the end", &[0x0061, 0xD800]),
+    ("lone high surrogate", &[0xD83E]),
+    ("lone low surrogate", &[0xDC00]),
+    ("low surrogate + high surrogate (wrong order)", &[0xDC00, 0xD800]),
+    ("valid pair", &[0xD83E, 0xDD80]),
+    ("valid pair between unpaired high surrogates", &[0xD800, 0xD83E, 0xDD80, 0xD800]),
+    ("long: 24 units then unpaired high surrogate + non-surrogate", &[
+        0x61, 0x61, 0x61, 0x61, 0x61, 0x61, 0x61, 0x61, 0x61, 0x61, 0x61, 0x61, 0x61, 0x61, 0x61, 0x61, 0x61, 0x61, 0x61, 0x61,
+        0x61, 0x61, 0x61, 0x61, 0xD800, 0x0061,
+    ]),
+];
 
 fn parse_ops(lines: &[String]) -> Option<(String, Kind, Bk, Option<String>)> {
     let mut hay = None;
@@ -1848,6 +2016,100 @@ fn main() {
                 }
             }
             st.hit("haystacks whole-piece (fixed)", WHOLE.len() as u64);
+
+            // ---- class alphabet: all strings of at most 3 (thorough 4) units, the class methods
+            // exhaustively; every 53rd haystack additionally the full grid
+            {
+                st.class_sweep = true;
+                let max_units = if thorough { 4 } else { 3 };
+                let mut idx: Vec<usize> = vec![];
+                let mut count = 0u64;
+                let mut h = String::new();
+                loop {
+                    h.clear();
+                    for &i in &idx {
+                        h.push_str(CLASS_UNITS[i].1);
+                    }
+                    count += 1;
+                    for &i in &idx {
+                        *st.class_unit_hits.entry(i).or_insert(0) += 1;
+                    }
+                    let plans: &[u8] = if count % 53 == 3 {
+                        &[PLAN_CLASSES_ALL, PLAN_FULL]
+                    } else if idx.len() <= 1 {
+                        &[PLAN_CLASSES_ALL]
+                    } else {
+                        &[PLAN_CLASSES]
+                    };
+                    // inline and borrowed sources never allocate: above 2 units (quick) the backend rotates
+                    let bks: &[Bk] = if idx.len() <= 2 || thorough {
+                        &[Bk::Arc, Bk::Rc, Bk::Unique]
+                    } else {
+                        match count % 3 {
+                            0 => &[Bk::Arc],
+                            1 => &[Bk::Rc],
+                            _ => &[Bk::Unique],
+                        }
+                    };
+                    for &plan in plans {
+                        PLAN.store(plan, Ordering::Relaxed);
+                        for k in [Kind::Inline, Kind::Borrowed] {
+                            for &b in bks {
+                                account(&mut st, &h, k, b, if count % 97 == 5 && k == Kind::Inline && b == Bk::Rc { Some(count % 40) } else { None });
+                                if st.stop.is_some() {
+                                    PLAN.store(PLAN_FULL, Ordering::Relaxed);
+                                    break 'plan;
+                                }
+                            }
+                        }
+                    }
+                    let mut pos = idx.len();
+                    loop {
+                        if pos == 0 {
+                            idx = vec![0; idx.len() + 1];
+                            break;
+                        }
+                        pos -= 1;
+                        if idx[pos] + 1 < CLASS_UNITS.len() {
+                            idx[pos] += 1;
+                            for x in idx.iter_mut().skip(pos + 1) {
+                                *x = 0;
+                            }
+                            break;
+                        }
+                    }
+                    if idx.len() > max_units {
+                        break;
+                    }
+                }
+                st.hit("classes haystacks enumerated", count);
+                // longer ones: heap, heap offset slice, borrowed; both plans
+                let n_long = if thorough { 600 } else { 60 };
+                PLAN.store(PLAN_BOTH, Ordering::Relaxed);
+                for _ in 0..n_long {
+                    let n = 9 + rng.below(14);
+                    let mut h = String::new();
+                    for _ in 0..n {
+                        // half of the units plain letters so that words exist between the separators
+                        let i = if rng.chance(1, 2) { 20 + rng.below(4) } else { rng.below(20) };
+                        h.push_str(CLASS_UNITS[i].1);
+                        *st.class_unit_hits.entry(i).or_insert(0) += 1;
+                    }
+                    let kinds: &[Kind] = if h.len() <= INLINE_CAP { &[Kind::Inline, Kind::Borrowed] } else { &[Kind::Heap, Kind::HeapSlice, Kind::Borrowed] };
+                    for &k in kinds {
+                        for b in [Bk::Arc, Bk::Rc, Bk::Unique] {
+                            account(&mut st, &h, k, b, None);
+                            if st.stop.is_some() {
+                                PLAN.store(PLAN_FULL, Ordering::Relaxed);
+                                break 'plan;
+                            }
+                        }
+                    }
+                }
+                st.hit("classes haystacks random long", n_long as u64);
+                PLAN.store(PLAN_FULL, Ordering::Relaxed);
+                st.class_sweep = false;
+            }
 
             // ---- exhaustive part: all strings of at most `max_units` units
             let max_units = if thorough { 6 } else { 4 };
